@@ -71,4 +71,9 @@ TEXT = {
   "note": "Trusts the harness's reading of the grammar (written from README/tests, adjusted only where the suite pins a quirk) and Python's correctly rounded float().",
   "technique": "differential monitor against an independent lexical specification + tiling/progress invariants + print/read round trip",
  },
+ "C17": {
+  "level": "Exploration: failing programs are generated with exactly one planted failing token whose source, byte offset, line, column and line text the generator knows by construction; the reported location must match in 14 scenarios (call chains, loops, meta blocks, included files, injected text, repeated identical sources, several sources per interpreter) under LF/CRLF/tab/multi-byte filler, at build time and at run time.",
+  "note": "Oracle is the generator's own bookkeeping; source names are predicted from the monitor's count of interned sources (read through the dump hook before each submission).",
+  "technique": "planted-failure monitor: generator bookkeeping vs last_err_location()/pretty_error(), plus debug-map/code length invariant at the hook",
+ },
 }
